@@ -24,7 +24,13 @@ RULE = ("cases = op lists over WRITE/FLUSH/SHUTDOWN/READ/RESET/STOP (real Writer
         "try_load_data_into_once), DELIVER/ACK/LOSE i (any pool frame, any order, repeated) on TWO real DataStreams endpoints with 1-4 "
         "client-opened uni/bidi streams; non-trivial = at least 2 streams, at least one STREAM frame reported lost and retransmitted "
         "afterwards, and a FIN-carrying frame delivered before some data of the same flow (evaluated on the generator's byte-level "
-        "replay of the schedule); distinct by hash of the op list")
+        "replay of the schedule); distinct by hash of the op list. Directed families besides the random / malformed ones: ex2/ex3 "
+        "(every interleaving of DELIVER/ACK/LOSE over 2-3 frames), targeted (FIN first, loss + retransmission), parked (an application "
+        "that polls its Reader after every delivery and its Writer after every acknowledgement while holes below the highest received "
+        "offset are filled by retransmissions, final size unknown / known / learnt late), late-ack (frames that arrived are reported "
+        "lost, re-sent - carrying the FIN when the application finished in between -, acknowledged late, and the retransmissions lost), "
+        "ex-hist (every sequence of 5-6 events over EMIT / SHUTDOWN / DELIVER i / ACK i / LOSE i on one stream, so shutdown falls at "
+        "every point of the loss history); each ends with the fair round")
 TRUSTED_BASE = ["model coq/Model/Streams.v transcribes sender.rs / outgoing.rs / writer.rs / recver.rs / incoming.rs / reader.rs and the "
                 "cursor loop of raw.rs over Model.SendBuf and Model.RecvBuf; equality with the two real DataStreams endpoints is checked by "
                 "stream `stream_e2e` on every op (frames with a hash of their bytes, poll results, bytes read, wake counts), not proved",
@@ -39,7 +45,7 @@ ASSUMPTIONS = ["written bytes are position-derived per flow (content(p + 7919*(k
                "progress theorems (c01_progress, c01_progress_flow) assume: connection open, no reset / stop-sending on the flows concerned, written length within the stream window, packet capacity in [26, 2^62), dirs in {0,1}; a server flow of a stream the server has not learnt of is not covered (it has no Writer)"]
 
 MANIFEST = {
-    "text": "Machine-checked Coq theorems (Properties/C01.v) over an executable model of the whole stream data path (Writer -> Sender over the C09 SendBuf model -> adversarial frame pool -> Recver over the C08 RecvBuf model -> Reader, two endpoints, round-robin cursor): for every operation list (any capacities, any loss / reorder / duplication / delayed, repeated or contradictory acks, resets and stop-sending) the bytes handed to the reader are a prefix of the bytes written, byte for byte, every STREAM frame carries exactly the written slice it names, FIN only at the written length after shutdown, end-of-stream is reported only after the last byte and only if shutdown was called, and a reset error is never invented; every flow of every reachable state of the two-endpoint model is such a flow (c01_safety_system); from EVERY reachable state without reset one fair round (lose all, emit until drained, deliver all, ack all) makes everything readable, reports the end after the last byte when shutdown was called and completes flush / shutdown, per flow (c01_progress_flow) and for the two endpoints (c01_progress); whatever the cursor holds one try_load_data_into_once offers the packet to every stream of the output set. The model is tied to the Rust by running the extracted model and two real DataStreams endpoints on the same schedules every run; the property is also evaluated directly on the implementation's observations by a Python oracle.",
+    "text": "Machine-checked Coq theorems (Properties/C01.v) over an executable model of the whole stream data path (Writer -> Sender over the C09 SendBuf model -> adversarial frame pool -> Recver over the C08 RecvBuf model -> Reader, two endpoints, round-robin cursor): for every operation list (any capacities, any loss / reorder / duplication / delayed, repeated or contradictory acks, resets and stop-sending) the bytes handed to the reader are a prefix of the bytes written, byte for byte, every STREAM frame carries exactly the written slice it names, FIN only at the written length after shutdown, end-of-stream is reported only after the last byte and only if shutdown was called, and a reset error is never invented; every flow of every reachable state of the two-endpoint model is such a flow (c01_safety_system); from EVERY reachable state without reset one fair round (lose all, emit until drained, deliver all, ack all) makes everything readable, reports the end after the last byte when shutdown was called and completes flush / shutdown, per flow (c01_progress_flow) and for the two endpoints (c01_progress); whatever the cursor holds one try_load_data_into_once offers the packet to every stream of the output set. The model is tied to the Rust by running the extracted model and two real DataStreams endpoints on the same schedules every run; the property is also evaluated directly on the implementation's observations by a Python oracle. A parked reader is woken whenever the stream becomes readable, and no wake-up happens without a parked waker (c01_no_lost_wakeup, c01_wake_or_parked, lifted to every flow of the two-endpoint system).",
     "note": "Trusted: Coq kernel, extraction, OCaml driver, Rust harness (two real qrecovery::streams::DataStreams joined by a case-controlled channel), Python generators/oracle. Safety is a theorem for every op list of one flow and of the two-endpoint system (no class restriction since F29 is fixed). Liveness is `partial` in the sense of the design: it is a theorem about the model (c01_progress: from every reachable open state without reset / stop and with written lengths within the windows, one good round of the two endpoints - lose all, emit on both sides until nothing, deliver all, ack all - completes every client flow, every flow of a stream the server knows and every finished flow; c01_progress_flow: the same for one flow against the adversarial channel; c01_done_reads: two reads then return exactly the written bytes and report the end after shutdown), whose hypothesis is the fairness of the virtual network (the round itself); real timers, loss detection and retransmission scheduling belong to C13, window updates to C11. Observation F60 (not a C01 violation for finite data, corpus case f60): when the cursor stream has used up its 4096 tokens try_load_data_into_once restarts the round at the SAME stream, so a stream with data is never preempted by its neighbours, contrary to the doc comment (c01_cursor_no_rotation); a two-range repair is prepared as one `fix:` commit and proved to rotate (c01_cursor_rotates); the model carries both orders (sy_rot) and the props module selects the stream (`stream_e2e` / `stream_e2e_rot`) that matches the checked-out raw.rs.",
     "technique": "Coq proof (per-flow invariant over operation lists, reusing the C08 / C09 theorems; bounded-fuel good round for liveness) + differential correspondence model/implementation + direct oracle",
 }
@@ -127,6 +133,8 @@ def oracle(case, obs):
     last_ack = {}
     final_polls = {}  # key -> {tag: (idx, code)} last flush / shutdown poll
     reads = {}        # key -> list of (idx, room, n, code)
+    parked_r = {}     # key -> (idx, rw) of a Reader::poll_read that answered Pending and has not been polled since
+    parked_w = {}     # (key, tag) -> (idx, ww) of a Writer poll (0 write / 1 flush / 2 shutdown) that answered Pending
     closed = False
     for idx, ((tag, args), line) in enumerate(zip(case.ops, obs)):
         if line.startswith("!"):
@@ -145,6 +153,30 @@ def oracle(case, obs):
             side, j = args[0], args[1]
             if side < 2 and j < k:
                 key = 2 * j + (side if tag in (0, 1, 2, 4) else 1 - side)
+        # ---- no lost wake-up: a task that was told Pending runs again only when its waker is woken; so whenever the next poll
+        # of the same kind would answer Ready, the waker must have been woken since (otherwise the task sleeps for ever on
+        # a stream that is ready).  Exempt: readiness the application caused itself on that very Writer (cancel; for a
+        # parked write also its own shutdown), which needs no wake-up.
+        if tag in (0, 1, 2) and key is not None and code != 9:
+            pw = parked_w.pop((key, tag), None)
+            if pw is not None and code != 0 and ww <= pw[1]:
+                return ("lost-wakeup: op %d %s on flow %d answers %d, the same poll answered Pending at op %d and the writer's waker "
+                        "was never woken in between (wake count %d)" % (idx, ("poll_write", "poll_flush", "poll_shutdown")[tag], key, code, pw[0], ww))
+            if code == 0:
+                parked_w[(key, tag)] = (idx, ww)
+            if tag == 2:
+                parked_w.pop((key, 0), None)
+        elif tag == 4 and key is not None and code != 9:
+            for t in (0, 1, 2):
+                parked_w.pop((key, t), None)
+        elif tag == 3 and key is not None and code != 9:
+            pr = parked_r.pop(key, None)
+            if pr is not None and code != 0 and rw <= pr[1]:
+                return ("lost-wakeup: op %d poll_read on flow %d answers %d with %d bytes, the reader was told Pending at op %d and its "
+                        "waker was never woken in between (wake count %d): a task parked in read() sleeps for ever although the stream is readable"
+                        % (idx, key, code, len(extra), pr[0], rw))
+            if code == 0:
+                parked_r[key] = (idx, rw)
         if tag == 0 and code == 1:
             written[key] = written.get(key, 0) + args[2]
             last_ev[key] = idx
@@ -153,8 +185,11 @@ def oracle(case, obs):
         elif tag == 1 and key is not None and code != 9:
             final_polls.setdefault(key, {})[1] = (idx, code)
         elif tag == 2 and key is not None and code != 9:
-            if code in (0, 1):
-                shut.setdefault(key, idx)
+            if code in (0, 1) and key not in shut:
+                # the FIRST poll_shutdown is the event "the application finished the stream"; polling it again asks for
+                # nothing new (it used to count as an event too, which switched the liveness clauses off for every flow
+                # whose shutdown is polled after the round, i.e. exactly where no-eof / shutdown-stuck apply)
+                shut[key] = idx
                 last_ev[key] = idx
             final_polls.setdefault(key, {})[2] = (idx, code)
         elif tag == 3 and key is not None and code != 9:
@@ -326,6 +361,13 @@ class Plan:
         self.acked_idx = set()
         self.delivered = {}           # key -> list of (off, len, fin)
         self.reset = False
+        self.eager = 0.0              # probability that the application polls right after a network event on its flow
+        self.family = "random"
+        self.hole_fill = False        # a frame filling a hole below the highest received offset was delivered to a parked reader
+        self.late_ack = False         # a frame was acknowledged after it had been reported lost and its range sent again
+        self.rcvd = {}                # key -> set of byte positions delivered (generator's replay)
+        self.parked = set()           # keys whose reader was polled while nothing was readable (replay)
+        self.nread = {}               # key -> read position (replay, approximate)
 
     # ---- app ops
     def write(self, side, j, n):
@@ -345,6 +387,30 @@ class Plan:
 
     def read(self, side, j, n):
         self.ops.append((3, [side, j, n]))
+        key = 2 * j + (1 - side)
+        got = self.rcvd.get(key, set())
+        pos = self.nread.get(key, 0)
+        if pos in got:
+            self.parked.discard(key)
+            q = pos
+            while q in got and q - pos < n:
+                q += 1
+            self.nread[key] = q
+        else:
+            self.parked.add(key)
+
+    def app_after_delivery(self, key):
+        if self.eager and self.rng.random() < self.eager:
+            self.read(1 - key % 2, key // 2, self.rng.choice([1, 3, 17, 100, 5000, 5000]))
+
+    def app_after_ack(self, key):
+        if self.eager and self.rng.random() < self.eager:
+            side, j = key % 2, key // 2
+            s = self.snd.get(key)
+            if s is not None and s.shut and self.rng.random() < 0.5:
+                self.shutdown(side, j)
+            else:
+                self.flush(side, j)
 
     def reset_op(self, side, j, err):
         self.ops.append((4, [side, j, err]))
@@ -462,6 +528,12 @@ class Plan:
                 if ln > 0 and not fin and any(f for (_, _, f) in got):
                     self.flags["fin_before_data"] = True
                 got.append((off, ln, fin))
+                have = self.rcvd.setdefault(key, set())
+                pos = self.nread.get(key, 0)
+                if key in self.parked and pos not in have and off <= pos < off + ln and have and off + ln <= max(have):
+                    self.hole_fill = True
+                have.update(range(off, off + ln))
+                self.app_after_delivery(key)
             elif kind == 3:
                 s = self.snd[key]
                 if s.inset and s.state in (0, 2):
@@ -474,6 +546,8 @@ class Plan:
         if i < len(self.pool):
             key, kind, off, ln, fin = self.pool[i]
             s = self.snd[key]
+            if kind == 1 and i in self.lost_idx and any(c == F_ for c in s.col[off:off + ln]):
+                self.late_ack = True
             if kind == 1 and s.inset and s.state in (0, 2):
                 for q in range(off, off + ln):
                     s.col[q] = R_
@@ -485,6 +559,8 @@ class Plan:
                         s.inset = False
             elif kind == 2:
                 s.inset = False
+            if kind == 1:
+                self.app_after_ack(key)
 
     def lose(self, i):
         self.ops.append((9, [i]))
@@ -539,7 +615,7 @@ class Plan:
 
     def case(self, name):
         m = {"nt": self.k >= 2 and self.flags["loss_retx"] and self.flags["fin_before_data"], "reset": self.reset,
-             "frames": len(self.pool)}
+             "frames": len(self.pool), "family": self.family, "hole_fill": self.hole_fill, "late_ack": self.late_ack}
         return Case(name, self.ops, [self.w, self.k] + self.dirs, m)
 
 
@@ -550,6 +626,7 @@ def gen_random_case(rng, name, malformed=False):
     if malformed and rng.random() < 0.4:
         w = rng.choice([0, 1, 30, 200])
     p = Plan(rng, w, dirs)
+    p.family = "malformed" if malformed else "random"
     small = rng.random() < 0.6
     use_reset = rng.random() < (0.5 if malformed else 0.12)
     caps = [26, 27, 28, 30, 40, 64, 100, 300, 1200, 1500]
@@ -622,6 +699,7 @@ def gen_targeted(rng, name):
     k = rng.randint(2, 4)
     dirs = [rng.choice([0, 1]) for _ in range(k)]
     p = Plan(rng, W_DEFAULT, dirs)
+    p.family = "targeted"
     cap = rng.choice([30, 40, 64, 100, 300])
     sizes = [rng.randint(1, 3 * cap) for _ in range(k)]
     for j in range(k):
@@ -683,6 +761,7 @@ def gen_exhaustive(nframes, prefix, rng):
         for ln in lens:
             for seq in itertools.permutations(events, ln):
                 p = Plan(rng, W_DEFAULT, [0])
+                p.family = "ex%d" % nframes
                 p.write(0, 0, data)
                 if not fin_only:
                     p.shutdown(0, 0)
@@ -702,6 +781,175 @@ def gen_exhaustive(nframes, prefix, rng):
     return cases
 
 
+def gen_parked(rng, name):
+    """an application that polls after every network event (its Reader after each delivery, its Writer after each
+    acknowledgement), while frames arrive out of order: holes open below the highest received offset and are filled
+    later by retransmissions, with the final size unknown, known early, or learnt late"""
+    k = rng.randint(1, 3)
+    dirs = [rng.choice([0, 1]) for _ in range(k)]
+    p = Plan(rng, W_DEFAULT, dirs)
+    p.family = "parked"
+    p.eager = rng.choice([1.0, 1.0, 0.7])
+    cap = rng.choice([28, 30, 40, 64, 100])
+    mode = {}
+    for j in range(k):
+        n = (cap - 2) * rng.randint(2, 5) - rng.randint(0, cap - 3)
+        p.write(0, j, n)
+        mode[j] = rng.choice(["nofin", "nofin", "fin", "late-shutdown"])
+        if mode[j] == "fin":
+            p.shutdown(0, j)
+    while p.emit(0, cap) is not None and len(p.pool) < 40:
+        pass
+    idx = list(range(len(p.pool)))
+    for j in range(k):                      # the reader task starts before anything has arrived: it parks
+        if rng.random() < 0.7:
+            p.read(1, j, 5000)
+    lost = [i for i in idx if rng.random() < 0.4] or [idx[0]]
+    order = [i for i in idx if i not in lost]
+    if rng.random() < 0.6:
+        rng.shuffle(order)
+    elif rng.random() < 0.5:
+        order.reverse()
+    for i in order:
+        p.deliver(i)
+    for j in range(k):                      # a server that answers what it has got so far
+        if dirs[j] == 0 and rng.random() < 0.2:
+            p.write(1, j, rng.randint(1, 40))
+    for i in lost:
+        p.lose(i)
+    for j in range(k):
+        if mode[j] == "late-shutdown" and rng.random() < 0.5:
+            p.shutdown(0, j)
+            mode[j] = "fin"
+    n0 = len(p.pool)
+    while p.emit(0, rng.choice([cap, cap, cap + 9])) is not None and len(p.pool) < 90:
+        pass
+    new = list(range(n0, len(p.pool)))
+    if rng.random() < 0.5:
+        rng.shuffle(new)
+    for i in new:
+        p.deliver(i)
+        if rng.random() < 0.15:
+            p.deliver(rng.choice(idx))      # a duplicate of an original
+    for j in range(k):                      # whatever is readable now must have woken the parked reader
+        p.read(1, j, 5000)
+    acks = order + new
+    rng.shuffle(acks)
+    for i in acks:
+        if rng.random() < 0.85:
+            p.ack(i)
+    for j in range(k):
+        if mode[j] == "late-shutdown":
+            p.shutdown(0, j)
+    p.good_round(cap)
+    return p.case(name)
+
+
+def gen_late_ack(rng, name):
+    """spurious loss reports: frames that did arrive are declared lost, their ranges are sent again (re-cut by another
+    capacity, and carrying the FIN if the application finished in between), the late acknowledgements of the originals
+    arrive, and then the retransmissions are lost for real; then the fair round"""
+    k = rng.randint(1, 3)
+    dirs = [rng.choice([0, 1]) for _ in range(k)]
+    p = Plan(rng, W_DEFAULT, dirs)
+    p.family = "late-ack"
+    p.eager = rng.choice([0.0, 0.0, 0.5])
+    cap = rng.choice([28, 30, 40, 64, 100, 300])
+    when = {}
+    for j in range(k):
+        n = max(1, (cap - 2) * rng.randint(1, 3) - rng.choice([0, 0, rng.randint(0, cap - 3)]))
+        p.write(0, j, n)
+        when[j] = rng.choice(["before", "between", "between", "after", "never"])
+        if when[j] == "before":
+            p.shutdown(0, j)
+    while p.emit(0, cap) is not None and len(p.pool) < 30:
+        pass
+    first = list(range(len(p.pool)))
+    arrived = [i for i in first if rng.random() < 0.8]
+    if rng.random() < 0.5:
+        rng.shuffle(arrived)
+    for i in arrived:
+        p.deliver(i)
+    spurious = [i for i in first if rng.random() < 0.6] or [first[-1]]
+    for i in spurious:
+        p.lose(i)
+    for j in range(k):
+        if when[j] == "between":
+            if rng.random() < 0.3:
+                p.write(0, j, rng.randint(1, cap))
+            p.shutdown(0, j)
+    n0 = len(p.pool)
+    while p.emit(0, rng.choice([cap, cap, cap + 11, 1200])) is not None and len(p.pool) < 70:
+        pass
+    for j in range(k):
+        if when[j] == "after":
+            p.shutdown(0, j)
+    while p.emit(0, cap) is not None and len(p.pool) < 80:
+        pass
+    retx = list(range(n0, len(p.pool)))
+    for i in spurious:                      # the acknowledgements were only late
+        if rng.random() < 0.85:
+            p.ack(i)
+    for i in retx:
+        r = rng.random()
+        if r < 0.75:
+            p.lose(i)
+        elif r < 0.9:
+            p.deliver(i)
+            p.ack(i)
+    if rng.random() < 0.3:                  # what the sender makes of it before the round
+        while p.emit(0, cap) is not None and len(p.pool) < 100:
+            pass
+    p.good_round(cap)
+    return p.case(name)
+
+
+def gen_exhaustive_hist(depth, nfr, prefix, rng):
+    """one stream, `nfr` frames' worth of data written, nothing else fixed: every sequence of `depth` events over
+    EMIT / SHUTDOWN / DELIVER i / ACK i / LOSE i (i = any of the first three pool frames that exist by then), so that the
+    application's shutdown falls at every point of the loss / retransmission / late-acknowledgement history; then the
+    fair round"""
+    cap = 30
+    cases = []
+    seen = set()
+
+    def rec(seq, nemit, shut):
+        if len(seq) == depth:
+            cases.append(seq)
+            return
+        # EMIT (an emission that finds nothing is kept once: it is the observation `drained`)
+        rec(seq + [("E",)], nemit + 1, shut)
+        if not shut:
+            rec(seq + [("S",)], nemit, True)
+        for i in range(min(nemit, 3)):
+            for t in (7, 8, 9):
+                rec(seq + [(t, i)], nemit, shut)
+
+    rec([("E",)], 1, False)
+    out = []
+    for n, seq in enumerate(cases):
+        p = Plan(rng, W_DEFAULT, [0])
+        p.family = "ex-hist"
+        p.write(0, 0, nfr * (cap - 2))
+        for ev in seq:
+            if ev[0] == "E":
+                p.emit(0, cap)
+            elif ev[0] == "S":
+                p.shutdown(0, 0)
+            else:
+                (p.deliver if ev[0] == 7 else p.ack if ev[0] == 8 else p.lose)(ev[1])
+        sig = tuple((t, tuple(a)) for t, a in p.ops)
+        if sig in seen:
+            continue
+        seen.add(sig)
+        if not p.snd[0].shut:
+            p.shutdown(0, 0)
+        p.read(1, 0, 7)
+        p.good_round(cap + 3)
+        out.append(p.case("%s%d" % (prefix, n)))
+    return out
+
+
 def gen(rng, tier):
     cases = []
     if tier == "quick":
@@ -709,6 +957,12 @@ def gen(rng, tier):
         rng.shuffle(ex)
         cases += ex[:int(300 * SCALE)]
         cases += [gen_targeted(rng, "t%d" % i) for i in range(int(200 * SCALE))]
+        cases += [gen_parked(rng, "pk%d" % i) for i in range(int(250 * SCALE))]
+        cases += [gen_late_ack(rng, "la%d" % i) for i in range(int(250 * SCALE))]
+        for nfr in (1, 2):
+            eh = gen_exhaustive_hist(6, nfr, "eh6.%d-" % nfr, rng)
+            rng.shuffle(eh)
+            cases += eh[:int(150 * SCALE)]
         cases += [gen_random_case(rng, "r%d" % i) for i in range(int(700 * SCALE))]
         cases += [gen_random_case(rng, "m%d" % i, malformed=True) for i in range(int(200 * SCALE))]
     else:
@@ -716,6 +970,13 @@ def gen(rng, tier):
         ex3 = gen_exhaustive(3, "ex3-", rng)
         cases += ex3
         cases += [gen_targeted(rng, "t%d" % i) for i in range(3000)]
+        cases += [gen_parked(rng, "pk%d" % i) for i in range(2000)]
+        cases += [gen_late_ack(rng, "la%d" % i) for i in range(2000)]
+        cases += gen_exhaustive_hist(6, 1, "eh6.1-", rng)
+        cases += gen_exhaustive_hist(5, 2, "eh5.2-", rng)
+        eh = gen_exhaustive_hist(6, 2, "eh6.2-", rng)
+        rng.shuffle(eh)
+        cases += eh[:3000]
         cases += [gen_random_case(rng, "r%d" % i) for i in range(12000)]
         cases += [gen_random_case(rng, "m%d" % i, malformed=True) for i in range(3000)]
     return cases
@@ -742,6 +1003,11 @@ def hist(case):
     lab.append("frames:%s" % ("0" if fr == 0 else "1-3" if fr <= 3 else "4-15" if fr <= 15 else "16+"))
     if case.meta.get("reset"):
         lab.append("with-reset/stop")
+    lab.append("family:%s" % case.meta.get("family", "random"))
+    if case.meta.get("hole_fill"):
+        lab.append("hole-filled-under-parked-reader")
+    if case.meta.get("late_ack"):
+        lab.append("ack-after-loss-and-resend")
     return lab
 
 
